@@ -266,3 +266,15 @@ def resolved_return(fn, which=-1):
     rets = [n for n in walk_no_nested(fn) if isinstance(n, ast.Return) and n.value is not None]
     rets.sort(key=lambda r: (r.lineno, r.col_offset))
     return deep_resolved(fn, rets[which].value) if rets else None
+
+
+def if_branches(block, ifstmt):
+    '''(statements executed when the test holds, statements executed when it does not) for an if statement of `block`: the else branch, or -
+    when the if body always leaves (ends in return/raise/continue/break) and there is no else - the statements that follow it.'''
+    body = list(ifstmt.body)
+    if ifstmt.orelse:
+        return body, list(ifstmt.orelse)
+    if body and isinstance(body[-1], (ast.Return, ast.Raise, ast.Continue, ast.Break)):
+        k = next((i for i, s_ in enumerate(block) if s_ is ifstmt), None)
+        return body, list(block[k + 1:]) if k is not None else []
+    return body, []
